@@ -179,6 +179,34 @@ static void wl_array_ops(struct ctx *c)
 	check_keeps(c);
 	put_keeps(c, 1);
 }
+/* json_object_array_shrink(arr, extra) used to RESERVE room (extra > free slots) or to trim; whatever it returns, the array must stay usable:
+ * 40 more elements are added afterwards (unarmed) and everything is read back.  param = n*4 + mode (0 reserve 71, 1 trim to 0 extra, 2 reserve 1, 3 reserve 1000) */
+static void wl_array_reserve(struct ctx *c)
+{
+	int n = c->param / 4, mode = c->param % 4, i, rc, extra = mode == 0 ? 71 : mode == 1 ? 0 : mode == 2 ? 1 : 1000; struct json_object *a = json_object_new_array_ext(n < 8 ? 8 : n * 2);
+	for (i = 0; i < n; i++) json_object_array_add(a, json_object_new_int(i));
+	ARM(c); rc = json_object_array_shrink(a, extra); DISARM(c);
+	if (rc != 0) c->failed = 1;
+	for (i = 0; i < 40; i++) if (json_object_array_add(a, json_object_new_int(1000 + i)) != 0) bad(c, "add-after-shrink-failed");
+	if ((int)json_object_array_length(a) != n + 40) bad(c, "length-after-shrink-and-adds:%d", (int)json_object_array_length(a));
+	for (i = 0; i < n + 40; i++) if (json_object_get_int(json_object_array_get_idx(a, (size_t)i)) != (i < n ? i : 1000 + i - n)) { bad(c, "element-%d-after-shrink-and-adds", i); break; }
+	ob_printf(&c->res, "len %d", (int)json_object_array_length(a));
+	if (json_object_put(a) != 1) bad(c, "array-refcount");
+}
+/* a string token in which an escape (or the end of a plain run) lands after exactly L plain characters: every growth point of the tokener's scratch buffer
+ * is crossed by every kind of append.  param = kind*512 + L; kind 0 \u20ac, 1 \n, 2 surrogate pair, 3 plain run only, 4 the same as a member NAME with \u00e9 */
+static void wl_parse_token_boundary(struct ctx *c)
+{
+	int kind = c->param / 512, L = c->param % 512, i; struct obuf d = {0}; struct json_tokener *tok = json_tokener_new(); struct json_object *o; enum json_tokener_error e;
+	ob_puts(&d, kind == 4 ? "{\"" : "[\"");
+	for (i = 0; i < L; i++) ob_putc(&d, (char)('a' + i % 26));
+	ob_puts(&d, kind == 0 ? "\\u20ac" : kind == 1 ? "\\n" : kind == 2 ? "\\ud83d\\ude00" : kind == 4 ? "\\u00e9" : "");
+	ob_puts(&d, kind == 4 ? "tail\":[1]}" : "tail\"]");
+	ARM(c); o = json_tokener_parse_ex(tok, d.b, (int)d.n + 1); DISARM(c);
+	e = json_tokener_get_error(tok);
+	if (!o && e == json_tokener_error_memory) c->failed = 1; else { ob_printf(&c->res, "err=%d ", (int)e); res_obj(c, o); }
+	json_object_put(o); json_tokener_free(tok); free(d.b);
+}
 static void wl_set_string(struct ctx *c)
 {
 	struct json_object *s = json_object_new_string(c->param & 1 ? "short" : "a somewhat longer initial string value"); char big[300]; int rc; size_t n = c->param < 2 ? 100 : 250;
@@ -468,7 +496,7 @@ static void wl_pointer_grow(struct ctx *c)
 }
 
 struct workload { const char *name; void (*fn)(struct ctx *); int param; const char *cat; };
-#define MAXW 400
+#define MAXW 1200
 static struct workload W[MAXW]; static int NW;
 static void addw(const char *name, void (*fn)(struct ctx *), int param, const char *cat)
 {
@@ -498,6 +526,8 @@ static void build_table(void)
 	for (i = 0; i < 8; i++) addw("double_format", wl_double_format, i, "config");
 	for (i = 0; i < 3; i++) addw("big", wl_big_inputs, i, i == 2 ? "patch" : i == 1 ? "fd" : "parse");
 	addw("lh_table", wl_lh_table, 0, "table"); addw("lh_table", wl_lh_table, 16, "table");
+	{ static const int ns[] = {0, 5, 31, 32, 33, 64}; int j; for (i = 0; i < 6; i++) for (j = 0; j < 4; j++) addw("array_reserve", wl_array_reserve, ns[i] * 4 + j, "add"); }
+	{ int k, L; for (k = 0; k < 5; k++) for (L = 0; L <= 260; L += (L < 70 || (L >= 120 && L < 135) || (L >= 250)) ? 1 : 5) addw("parse_token_boundary", wl_parse_token_boundary, k * 512 + L, "parse"); }
 	{ static const int ps[] = {0 * 4 + 0, 5 * 4 + 0, 5 * 4 + 1, 5 * 4 + 2, 5 * 4 + 3, 6 * 4 + 1, 9 * 4 + 2}; for (i = 0; i < 7; i++) addw("parse_comma_locale", wl_parse_locale, ps[i], "parse"); }
 	{ static const int ms[] = {0, 9, 10, 11, 12, 21, 22, 23, 43, 44}; int j; for (i = 0; i < 10; i++) for (j = 0; j < 2; j++) addw("pointer_grow", wl_pointer_grow, ms[i] * 2 + j, j ? "patch" : "pointer"); }
 }
